@@ -201,11 +201,9 @@ Proof.
   replace (N.to_nat (0 + N.of_nat j)) with j by lia. exact Hc.
 Qed.
 
-(** whenever start_resolution_algorithm reports a derivation of the empty clause, the reconstruction
-    `build_proof_from_hint(hint, frozenset(), clauses)` passes all its asserts and returns `[]` *)
-Theorem build_term_empty : forall ns fuel cls l h,
+Theorem build_term_empty_fuel : forall ns fuel cls l h,
   start_resolution ns fuel cls = Ok (Some false, l, h) ->
-  exists n, build_term n h [] cls = Ok [].
+  build_term (S (length h)) h [] cls = Ok [].
 Proof.
   intros ns fuel cls l h H. unfold start_resolution in H.
   destruct cls as [|c0 cs']; [discriminate|].
@@ -223,7 +221,16 @@ Proof.
   specialize (Hemp eq_refl). apply in_map_iff in Hemp as ([k s] & Ek & Hin). cbn in Ek. subst k.
   apply in_split in Hin as (g1 & g2 & Eg).
   destruct (build_term_ok cls h Hok _ _ _ _ _ Eg eq_refl) as (t & Et & Em).
-  exists (S (length g1)). rewrite Et. f_equal.
-  destruct t as [|y t']; auto. exfalso.
-  assert (In y (mkset (y :: t'))) by (apply mkset_in; cbn; auto). rewrite Em in H. destruct H.
+  assert (t = []).
+  { destruct t as [|y t']; auto. exfalso.
+    assert (In y (mkset (y :: t'))) by (apply mkset_in; cbn; auto). rewrite Em in H. destruct H. }
+  subst t. eapply build_term_mono; eauto.
+  rewrite Eg, app_length. cbn. lia.
 Qed.
+
+(** whenever start_resolution_algorithm reports a derivation of the empty clause, the reconstruction
+    `build_proof_from_hint(hint, frozenset(), clauses)` passes all its asserts and returns `[]` *)
+Theorem build_term_empty : forall ns fuel cls l h,
+  start_resolution ns fuel cls = Ok (Some false, l, h) ->
+  exists n, build_term n h [] cls = Ok [].
+Proof. intros. eexists. eapply build_term_empty_fuel; eauto. Qed.
